@@ -14,7 +14,10 @@ under translation).  Emits
   * the first entries (one per TraitKind) of `getattr_handlers` / `setattr_handlers`;
   * the `clone_*_default_value` sets of trait_type.py.
 
-Fails closed: any shape it does not recognise raises ValueError.
+Fails closed: a shape it does not recognise is emitted as a poisoned value of the
+right type (`UNRECOGNISED …`, which no theorem in Props/C02, Props/C10 can match, so
+the tie theorems stop checking and the check reports the broken proof obligation);
+only a missing source file raises.
 """
 import ast
 import os
@@ -130,80 +133,137 @@ def _strs(xs):
     return "[" + ", ".join('"%s"' % x for x in xs) + "]"
 
 
+class _Section:
+    """Runs one extraction; on ValueError emits a poisoned definition instead."""
+
+    def __init__(self, out):
+        self.out = out
+        self.errors = []
+
+    def add(self, fn, fallback):
+        try:
+            self.out.extend(fn())
+        except (ValueError, KeyError, IndexError, AttributeError) as e:
+            self.errors.append(str(e))
+            msg = "UNRECOGNISED " + re.sub(r'[^A-Za-z0-9_ .:=(),-]', " ", str(e))[:120]
+            self.out.append("/- translator: %s -/" % msg)
+            self.out.extend(l.replace("@MSG@", msg) for l in fallback)
+
+
 def emit(traits_dir):
+    return _emit(traits_dir)[0]
+
+
+def _emit(traits_dir):
     csrc = open(os.path.join(traits_dir, "ctraits.c")).read()
     consts = ast.parse(open(os.path.join(traits_dir, "constants.py")).read())
     ttype = ast.parse(open(os.path.join(traits_dir, "trait_type.py")).read())
-    defines = _defines(csrc)
-    exports = _exports(csrc)
     L = ["/- GENERATED by harness/translate/enums.py from the working tree - do not edit. -/",
          "namespace TraitsVerif.Generated", ""]
+    S = _Section(L)
+    exports = _exports(csrc)
+    try:
+        defines = _defines(csrc)
+    except ValueError as e:
+        # without the constants nothing downstream can be stated: poison every constant the models use
+        S.errors.append(str(e))
+        defines = []
+        L.append("/- translator: UNRECOGNISED #define block: %s -/" % re.sub(r"[^A-Za-z0-9_ ]", " ", str(e))[:100])
+        for i, n in enumerate(["HASTRAITS_NO_NOTIFY", "HASTRAITS_VETO_NOTIFY", "TRAIT_SETATTR_ORIGINAL_VALUE",
+                               "TRAIT_POST_SETATTR_ORIGINAL_VALUE", "TRAIT_COMPARISON_MODE_MASK",
+                               "TRAIT_COMPARISON_MODE_NONE", "TRAIT_COMPARISON_MODE_IDENTITY",
+                               "TRAIT_COMPARISON_MODE_EQUALITY", "CONSTANT_DEFAULT_VALUE", "MISSING_DEFAULT_VALUE",
+                               "OBJECT_DEFAULT_VALUE", "LIST_COPY_DEFAULT_VALUE", "DICT_COPY_DEFAULT_VALUE",
+                               "TRAIT_LIST_OBJECT_DEFAULT_VALUE", "TRAIT_DICT_OBJECT_DEFAULT_VALUE",
+                               "CALLABLE_AND_ARGS_DEFAULT_VALUE", "CALLABLE_DEFAULT_VALUE",
+                               "TRAIT_SET_OBJECT_DEFAULT_VALUE", "DISALLOW_DEFAULT_VALUE"]):
+            L.append("def %s : Nat := %d" % (n, 7777000 + i))
     L.append("/-- `#define` constants of ctraits.c (flags, default-value types, maxima). -/")
     for name, val in defines:
         L.append("def %s : Nat := %d" % (name, val))
     L.append("def cDefines : List (String × Nat) := %s" % _pairs(defines))
     L.append("")
     for e in ENUMS:
-        mem = _enum_members(consts, e, exports, defines)
-        L.append("/-- members of `traits.constants.%s` -/" % e)
-        L.append("def %sMembers : List (String × Int) := %s" % (e[0].lower() + e[1:], _pairs(mem)))
+        def members(e=e):
+            mem = _enum_members(consts, e, exports, defines)
+            return ["/-- members of `traits.constants.%s` -/" % e,
+                    "def %sMembers : List (String × Int) := %s" % (e[0].lower() + e[1:], _pairs(mem))]
+        S.add(members, ['def %sMembers : List (String × Int) := [("@MSG@", 0)]' % (e[0].lower() + e[1:])])
     L.append("")
-    # _set_trait_comparison_mode: case n -> flag or-ed in (after the mask is cleared)
-    body = _function_body(csrc, "_set_trait_comparison_mode")
-    cases = re.findall(r"case\s+(\d+):\s*trait->flags\s*&=\s*~TRAIT_COMPARISON_MODE_MASK;\s*"
-                       r"trait->flags\s*\|=\s*(TRAIT_COMPARISON_MODE_\w+);\s*break;", body)
-    if len(cases) != len(re.findall(r"\bcase\b", body)) or not cases:
-        raise ValueError("unknown shape of _set_trait_comparison_mode")
-    L.append("/-- `_set_trait_comparison_mode`: ComparisonMode value -> flag stored under the mask -/")
-    L.append("def comparisonModeSetCases : List (Nat × String) := [%s]" % ", ".join('(%s, "%s")' % c for c in cases))
-    body = _function_body(csrc, "_get_trait_comparison_mode_int")
-    gets = re.findall(r"compare_flag\s*==\s*(TRAIT_COMPARISON_MODE_\w+)\)\s*\{\s*i_comparison_mode\s*=\s*(\d+);", body)
-    tail = re.findall(r"else\s*\{\s*assert\(compare_flag\s*==\s*(TRAIT_COMPARISON_MODE_\w+)\);\s*i_comparison_mode\s*=\s*(\d+);",
-                      body)
-    if len(gets) != 2 or len(tail) != 1:
-        raise ValueError("unknown shape of _get_trait_comparison_mode_int")
-    L.append("/-- `_get_trait_comparison_mode_int`: tested flag -> result; last entry is the `else` branch -/")
-    L.append("def comparisonModeGetCases : List (String × Nat) := [%s]" % ", ".join(
-        '("%s", %s)' % c for c in gets + tail))
-    # setattr_trait seeds `changed` from this flag
-    body = _function_body(csrc, "setattr_trait")
-    seed = re.findall(r"changed\s*=\s*\(traitd->flags\s*&\s*(\w+)\);", body)
-    if len(seed) != 1:
-        raise ValueError("setattr_trait: `changed = (traitd->flags & X)` not found exactly once")
-    L.append("/-- flag `setattr_trait` seeds `changed` from -/")
-    L.append('def setattrChangedSeedFlag : String := "%s"' % seed[0])
-    cmps = re.findall(r"changed\s*=\s*\((\w+)\s*!=\s*(\w+)\);", body)
-    if len(cmps) != 2:
-        raise ValueError("setattr_trait: expected two identity comparisons, found %s" % (cmps,))
-    L.append("/-- the two identity comparisons of `setattr_trait` (delete path, assignment path) -/")
-    L.append("def setattrIdentityComparisons : List (String × String) := [%s]" % ", ".join(
-        '("%s", "%s")' % c for c in cmps))
-    # default_value_for switch
-    body = _function_body(csrc, "default_value_for")
-    labels = re.findall(r"case\s+(\w+):", body)
-    if not labels or "default:" in body:
-        raise ValueError("unknown shape of default_value_for")
-    L.append("/-- `case` labels of the `default_value_for` switch, in source order -/")
-    L.append("def defaultValueForCases : List String := %s" % _strs(labels))
-    # handler tables: one entry per TraitKind
-    nk = len(_enum_members(consts, "TraitKind", exports, defines))
+
+    def set_cases():
+        body = _function_body(csrc, "_set_trait_comparison_mode")
+        cases = re.findall(r"case\s+(\d+):\s*trait->flags\s*&=\s*~TRAIT_COMPARISON_MODE_MASK;\s*"
+                           r"trait->flags\s*\|=\s*(TRAIT_COMPARISON_MODE_\w+);\s*break;", body)
+        if len(cases) != len(re.findall(r"\bcase\b", body)) or not cases:
+            raise ValueError("unknown shape of _set_trait_comparison_mode")
+        return ["/-- `_set_trait_comparison_mode`: ComparisonMode value -> flag stored under the mask -/",
+                "def comparisonModeSetCases : List (Nat × String) := [%s]" % ", ".join('(%s, "%s")' % c for c in cases)]
+    S.add(set_cases, ['def comparisonModeSetCases : List (Nat × String) := [(0, "@MSG@")]'])
+
+    def get_cases():
+        body = _function_body(csrc, "_get_trait_comparison_mode_int")
+        gets = re.findall(r"compare_flag\s*==\s*(TRAIT_COMPARISON_MODE_\w+)\)\s*\{\s*i_comparison_mode\s*=\s*(\d+);", body)
+        tail = re.findall(r"else\s*\{\s*assert\(compare_flag\s*==\s*(TRAIT_COMPARISON_MODE_\w+)\);\s*"
+                          r"i_comparison_mode\s*=\s*(\d+);", body)
+        if len(gets) != 2 or len(tail) != 1:
+            raise ValueError("unknown shape of _get_trait_comparison_mode_int")
+        return ["/-- `_get_trait_comparison_mode_int`: tested flag -> result; last entry is the `else` branch -/",
+                "def comparisonModeGetCases : List (String × Nat) := [%s]" % ", ".join(
+                    '("%s", %s)' % c for c in gets + tail)]
+    S.add(get_cases, ['def comparisonModeGetCases : List (String × Nat) := [("@MSG@", 0)]'])
+
+    def seed():
+        body = _function_body(csrc, "setattr_trait")
+        seed = re.findall(r"changed\s*=\s*\(traitd->flags\s*&\s*(\w+)\);", body)
+        if len(seed) != 1:
+            raise ValueError("setattr_trait: changed = (traitd->flags & X) not found exactly once")
+        return ["/-- flag `setattr_trait` seeds `changed` from -/",
+                'def setattrChangedSeedFlag : String := "%s"' % seed[0]]
+    S.add(seed, ['def setattrChangedSeedFlag : String := "@MSG@"'])
+
+    def idcmp():
+        body = _function_body(csrc, "setattr_trait")
+        cmps = re.findall(r"changed\s*=\s*\((\w+)\s*!=\s*(\w+)\);", body)
+        if len(cmps) != 2:
+            raise ValueError("setattr_trait: expected two identity comparisons, found %d" % len(cmps))
+        return ["/-- the two identity comparisons of `setattr_trait` (delete path, assignment path) -/",
+                "def setattrIdentityComparisons : List (String × String) := [%s]" % ", ".join(
+                    '("%s", "%s")' % c for c in cmps)]
+    S.add(idcmp, ['def setattrIdentityComparisons : List (String × String) := [("@MSG@", "")]'])
+
+    def dvf():
+        body = _function_body(csrc, "default_value_for")
+        labels = re.findall(r"case\s+(\w+):", body)
+        if not labels or "default:" in body:
+            raise ValueError("unknown shape of default_value_for")
+        return ["/-- `case` labels of the `default_value_for` switch, in source order -/",
+                "def defaultValueForCases : List String := %s" % _strs(labels)]
+    S.add(dvf, ['def defaultValueForCases : List String := ["@MSG@"]'])
+
     for tab in ("getattr_handlers", "setattr_handlers"):
-        m = re.search(r"static\s+trait_\w+\s+%s\[\]\s*=\s*\{(.*?)\};" % tab, csrc, flags=re.S)
-        if not m:
-            raise ValueError("%s not found" % tab)
-        ents = [x.strip() for x in re.sub(r"/\*.*?\*/", "", m.group(1), flags=re.S).split(",") if x.strip()]
-        if len(ents) < nk:
-            raise ValueError("%s shorter than TraitKind" % tab)
-        L.append("/-- `%s[kind]` for kind = 0..%d -/" % (tab, nk - 1))
-        L.append("def %sByKind : List String := %s" % (tab.split("_")[0], _strs(ents[:nk])))
+        def table(tab=tab):
+            nk = len(_enum_members(consts, "TraitKind", exports, defines))
+            m = re.search(r"static\s+trait_\w+\s+%s\[\]\s*=\s*\{(.*?)\};" % tab, csrc, flags=re.S)
+            if not m:
+                raise ValueError("%s not found" % tab)
+            ents = [x.strip() for x in re.sub(r"/\*.*?\*/", "", m.group(1), flags=re.S).split(",") if x.strip()]
+            if len(ents) < nk:
+                raise ValueError("%s shorter than TraitKind" % tab)
+            return ["/-- `%s[kind]` for kind = 0..%d -/" % (tab, nk - 1),
+                    "def %sByKind : List String := %s" % (tab.split("_")[0], _strs(ents[:nk]))]
+        S.add(table, ['def %sByKind : List String := ["@MSG@"]' % tab.split("_")[0]])
     L.append("")
     for s in CLONE_SETS:
         parts = s.split("_")
         lean = parts[0] + "".join(p.capitalize() for p in parts[1:])
-        L.append("/-- `traits.trait_type.%s` -/" % s)
-        L.append("def %s : List String := %s" % (lean, _strs(_clone_set(ttype, s))))
+
+        def cs(s=s, lean=lean):
+            return ["/-- `traits.trait_type.%s` -/" % s,
+                    "def %s : List String := %s" % (lean, _strs(_clone_set(ttype, s)))]
+        S.add(cs, ['def %s : List String := ["@MSG@"]' % lean])
     L += ["", "end TraitsVerif.Generated"]
-    return "\n".join(L) + "\n"
+    return "\n".join(L) + "\n", S.errors
 
 
 if __name__ == "__main__":
